@@ -24,6 +24,12 @@ type Config struct {
 	// BoundS: virtual seconds after the last fault and last restart within
 	// which every pending delivery must have completed.
 	BoundS int `json:"boundS"`
+	// Pre: pool indices of blobs that are in the source before the first
+	// generation starts (received in an earlier life, without the hook);
+	// PreDst: those of them the destination holds already. With
+	// fullSyncOnStart or validateOnStart they must reach the destination.
+	Pre    []int `json:"pre,omitempty"`
+	PreDst []int `json:"preDst,omitempty"`
 	// Dests: 2 = a second sync handler (same source, destination "dst2",
 	// queue "queue2", no faults of its own) is constructed concurrently with
 	// the first one in every generation; every acknowledged upload must
@@ -113,6 +119,20 @@ func gen(tier string, run int, r *simcore.Rand) *harness.Plan {
 	// the largest blob a source accepts), or one byte below it
 	if r.Bool(0.02) {
 		cfg.Blobs[r.Intn(len(cfg.Blobs))].Size = 16<<20 - r.Intn(2)
+	}
+
+	if (cfg.FullSync || cfg.Validate) && r.Bool(0.7) {
+		extra := sim.GenBlobSpecs(r, r.Range(1, 3), 3000)
+		for i := range extra {
+			if extra[i].Size < 4 {
+				extra[i].Size = 40 + i
+			}
+			cfg.Pre = append(cfg.Pre, len(cfg.Blobs))
+			if r.Bool(0.3) {
+				cfg.PreDst = append(cfg.PreDst, len(cfg.Blobs))
+			}
+			cfg.Blobs = append(cfg.Blobs, extra[i])
+		}
 	}
 
 	nRestarts := []int{0, 0, 1, 1, 1, 2, 2, 3}[r.Intn(8)]
